@@ -6,7 +6,9 @@ import (
 	"path/filepath"
 	"runtime"
 	"sort"
+	"strconv"
 	"strings"
+	"unicode/utf8"
 
 	"github.com/FollowTheProcess/spok/hash"
 
@@ -21,12 +23,40 @@ var c04Names = func() []string {
 		// names that continue with bytes the content pool starts with (boundary between path and content)
 		"f0", "f", "x0", "x01", "xhello", "dir/x1",
 		// a backslash is an ordinary character of a name here: "dir2\\x" is a file next to the directory dir2
-		"dir2\\x", "dir2\\sub\\x", "dir\\x"}
+		"dir2\\x", "dir2\\sub\\x", "dir\\x",
+		// file names are byte strings: names in a legacy encoding (Latin-1 é / è, lone 0xFF / 0xFE) are not
+		// valid UTF-8, and the two Unicode spellings of one visible name are different names. Written
+		// %XX here so that a saved case survives JSON; disk() gives the bytes.
+		"caf%E9.txt", "caf%E8.txt", "dir/%FF", "dir/%FE", "na%C3%AFve", "nai%CC%88ve",
+		// a path that changes kind: while it is not one of the files it exists as an (empty) directory
+		// and is handed to Hash along with the files, as any directory a glob matches is
+		swingName}
 	for i := 0; i < 30; i++ {
 		out = append(out, fmt.Sprintf("f%02d", i))
 	}
 	return out
 }()
+
+const swingName = "swing"
+
+// disk turns the %XX escapes of a universe name into the bytes of the name on disk.
+func disk(n string) string {
+	if !strings.Contains(n, "%") {
+		return n
+	}
+	var b []byte
+	for i := 0; i < len(n); i++ {
+		if n[i] == '%' && i+3 <= len(n) {
+			if v, err := strconv.ParseUint(n[i+1:i+3], 16, 8); err == nil {
+				b = append(b, byte(v))
+				i += 2
+				continue
+			}
+		}
+		b = append(b, n[i])
+	}
+	return string(b)
+}
 
 var c04Dirs = func() []string {
 	out := []string{"dir", "dir/sub", "dir2", "dir2/sub", "emptydir"}
@@ -78,19 +108,34 @@ func canonical(root string, files map[string]string) string {
 	sort.Strings(names)
 	var b strings.Builder
 	for _, n := range names {
-		fmt.Fprintf(&b, "%s\x00%s\x01", filepath.Join(root, filepath.FromSlash(n)), files[n])
+		fmt.Fprintf(&b, "%s\x00%s\x01", filepath.Join(root, filepath.FromSlash(disk(n))), files[n])
 	}
 	return b.String()
 }
 
 func describeSet(set string) string {
-	return strings.NewReplacer("\x00", " = ", "\x01", "; ").Replace(set)
+	out := strings.NewReplacer("\x00", " = ", "\x01", "; ").Replace(set)
+	if utf8.ValidString(out) {
+		return out
+	}
+	// names that are not valid UTF-8: show the bytes
+	var b strings.Builder
+	for i := 0; i < len(out); {
+		r, w := utf8.DecodeRuneInString(out[i:])
+		if r == utf8.RuneError && w == 1 {
+			fmt.Fprintf(&b, "\\x%02x", out[i])
+		} else {
+			b.WriteString(out[i : i+w])
+		}
+		i += w
+	}
+	return b.String()
 }
 
 func absList(root string, names []string) []string {
 	out := make([]string, len(names))
 	for i, n := range names {
-		out[i] = filepath.Join(root, filepath.FromSlash(n))
+		out[i] = filepath.Join(root, filepath.FromSlash(disk(n)))
 	}
 	return out
 }
@@ -98,8 +143,19 @@ func absList(root string, names []string) []string {
 func syncTree(root string, files map[string]string) error {
 	// remove everything that is not wanted, then write what is
 	for _, n := range c04Names {
-		p := filepath.Join(root, filepath.FromSlash(n))
+		p := filepath.Join(root, filepath.FromSlash(disk(n)))
 		want, ok := files[n]
+		if n == swingName {
+			if st, err := os.Lstat(p); err == nil && st.IsDir() == ok {
+				_ = os.Remove(p) // it is of the other kind now
+			}
+			if !ok {
+				if err := os.Mkdir(p, 0o755); err != nil && !os.IsExist(err) {
+					return err
+				}
+				continue
+			}
+		}
 		if !ok {
 			if err := os.Remove(p); err != nil && !os.IsNotExist(err) {
 				return err
@@ -148,6 +204,9 @@ func execDigest(s *ev.Shard, root string, book *digestBook, c DigestCase) *rp.Fa
 	// demands that they all agree.
 	digestOf := func(step string) (string, *rp.Fail) {
 		base := absList(root, order)
+		if _, isFile := files[swingName]; !isFile {
+			base = append(base, filepath.Join(root, swingName)) // a directory for now
+		}
 		variants := [][]string{base}
 		rev := make([]string, len(base))
 		for i, p := range base {
@@ -285,7 +344,7 @@ func execDigest(s *ev.Shard, root string, book *digestBook, c DigestCase) *rp.Fa
 			if !ok || !has {
 				continue
 			}
-			p := filepath.Join(root, filepath.FromSlash(e.Name))
+			p := filepath.Join(root, filepath.FromSlash(disk(e.Name)))
 			st, err := os.Stat(p)
 			if err != nil {
 				return &rp.Fail{Sig: "harness", Msg: err.Error()}
